@@ -59,7 +59,18 @@ void dtw_dba_{{ suffix }}(
     seq_t avg_step;
     idx_t path_length;
 
+    {%- if "ptrs" in suffix %}
+    // The compact warping paths array can be wider for a shorter series (larger length difference)
+    idx_t wps_length = 0;
+    for (r_idx=0; r_idx<nb_ptrs; r_idx++) {
+        idx_t cur_wps_length = dtw_settings_wps_length(t, lengths[r_idx], settings);
+        if (cur_wps_length > wps_length) {
+            wps_length = cur_wps_length;
+        }
+    }
+    {%- else %}
     idx_t wps_length = dtw_settings_wps_length(t, {{max_length}}, settings);
+    {%- endif %}
     wps = (seq_t *)malloc(wps_length * sizeof(seq_t));
 
     for (pi=0; pi<t; pi++) {
